@@ -125,6 +125,7 @@ enum
     CL_REAL_CAMERA,
     CL_DOUBLE_MAP_REFUSED,
     CL_LATE_UNMAP,
+    CL_BIG_FRAMES,
 };
 
 const VhSpec kSpec = {
@@ -138,7 +139,7 @@ const VhSpec kSpec = {
       "monitor_first_used_in_later_acquisition", "client_holds_region", "abort", "abort_while_worker_blocked", "abort_while_client_mapped",
       "abort_from_other_thread", "trigger_mode", "averaging", "averaging_2_windows", "fault_camera_frame", "fault_storage_append", "fault_start",
       "fault_fired", "fault_while_source_blocked", "shutdown_reinit", "start_while_running", "device_switch", "stream_toggled", "camera_no_frame_returns",
-      "hardware_id_gaps", "pct_schedule", "preemptions", "step_limit_inconclusive", "configure_while_running", "poll_then_continue_without_stop", "edge_preemptions", "frame_sizes_vary_within_acquisition", "device_open_refused_during_configure", "abort_from_other_thread_while_first_is_inside_stop", "shipped_simulated_camera", "client_maps_twice_without_unmap_refused", "client_unmaps_late_after_abort", nullptr },
+      "hardware_id_gaps", "pct_schedule", "preemptions", "step_limit_inconclusive", "configure_while_running", "poll_then_continue_without_stop", "edge_preemptions", "frame_sizes_vary_within_acquisition", "device_open_refused_during_configure", "abort_from_other_thread_while_first_is_inside_stop", "shipped_simulated_camera", "client_maps_twice_without_unmap_refused", "client_unmaps_late_after_abort", "frames_larger_than_16MiB", nullptr },
     { "C04 non-trivial: a finite acquisition completed with >=3 wraps of the sink ring AND (sink caught up at a wrap, or source blocked on a full ring, or a monitor lagging >= 1 frame, or write delay > 0)",
       "C05 non-trivial: image bytes % 8 != 0 AND a packet starting right after a wrap or after a partial client consume",
       "C06 non-trivial: >=2 acquisitions AND the monitor registered AND (partial consume, or hold while the ring filled, or first registration in a later acquisition)",
@@ -240,6 +241,7 @@ struct Ctx
     Mon mon[2];
     Ring ring_sink[2], ring_filter[2];
     double sink_factor = 2.5, filter_factor = 2.5;
+    bool big_frames = false; // some acquisition of this case has frames of more than 16 MiB
     size_t max_frame_bytes[2] = { 0, 0 };     // over the whole tape (raw frames)
     size_t max_avg_frame_bytes[2] = { 0, 0 }; // f32 frames
     int channel_new_calls = 0;
@@ -1904,6 +1906,21 @@ vh_run(const VhTok* tape, size_t n, VhReport* rep)
                     }
                     if (scen == 0 && (h >> 61) % 3 == 0)
                         c2[0].avg = c2[1].avg = 1; // frame_average_count 1: no averaging
+                    if (scen == 0 && (h >> 24) % 24 == 0) {
+                        // frames of a little more than 16 MiB (sizes above 2^24 bytes with all low-bit patterns):
+                        // a few of them, from a scripted camera, through rings of at most three frames
+                        for (StreamCfg& c3 : c2)
+                            if (c3.enabled) {
+                                c3.type = (h >> 29) & 1 ? SampleType_i8 : SampleType_u8;
+                                c3.w = 4097 + (h >> 30) % 8;
+                                c3.h = 4097 + (h >> 33) % 4;
+                                c3.nframes = 2 + (h >> 35) % 3;
+                                c3.cam &= 1;
+                                c3.vary = 0;
+                                c3.avg = 0;
+                                x.big_frames = true;
+                            }
+                    }
                     cur[0] = c2[0];
                     cur[1] = c2[1];
                 }
@@ -1937,6 +1954,11 @@ vh_run(const VhTok* tape, size_t n, VhReport* rep)
         x.filter_factor = f[(h >> 8) % 8];
     }
 
+    if (x.big_frames) {
+        x.sink_factor = std::min(x.sink_factor, 3.0);
+        x.filter_factor = std::min(x.filter_factor, 3.0);
+        x.c.cls(CL_BIG_FRAMES);
+    }
     if (n) {
         static const size_t origins[8] = { 0, 0, 0, 250, 65530, 4294967290ull, 250, 65530 };
         x.lap_origin = origins[vh_mix64(tape[0].c * 2654435761u + tape[0].d) % 8];
